@@ -157,9 +157,298 @@ def float_ops(ops):
     return out
 
 
+
+# --------------------------------------------------------------------------
+# instantiation, closed loop, loaders
+# --------------------------------------------------------------------------
+import logging  # noqa: E402
+import re  # noqa: E402
+import types  # noqa: E402
+
+
+def quiet_all():
+    for name in ("Task", "Workload", "WorkloadLoader", "Resources", "WorkerLoader", "JobGraph"):
+        implutil.quiet_logger(name)
+
+
+UNI = None
+NP_CALLS = []
+
+
+def wrap_uniform():
+    """Record every EventTime._rng.uniform() value."""
+    global UNI
+    EventTime(0, EventTime.Unit.US)        # makes sure the class-level rng exists
+    if not isinstance(EventTime._rng, RecUniform):
+        EventTime._rng = RecUniform(EventTime._rng)
+    UNI = EventTime._rng
+    UNI.calls = []
+
+
+def wrap_policy_class():
+    """Every ReleasePolicy created from now on records its numpy draws in NP_CALLS."""
+    from workload import JobGraph
+    RP = JobGraph.ReleasePolicy
+    if getattr(RP, "_verif_wrapped", False):
+        return
+    orig = RP.__init__
+
+    def init(self, *a, **k):
+        orig(self, *a, **k)
+        self._rng = RecRng(self._rng)
+        self._rng.calls = NP_CALLS
+
+    RP.__init__ = init
+    RP._verif_wrapped = True
+
+
+def obs_task_graphs(tgs, names):
+    """[[index, [[name, release, deadline, prob, [children]]...]]...], all task ids distinct"""
+    out = []
+    ids = []
+    for tg in tgs:
+        tasks = []
+        for t in tg.get_nodes():
+            ids.append(t.id)
+            tasks.append([names.index(t.name), vet(t.release_time), vet(t.deadline), fl_out(t.probability),
+                          [names.index(c.name) for c in tg.get_children(t)]])
+        out.append([int(tg.name.rsplit("@", 1)[1]), tasks])
+    return [out, int(len(set(ids)) == len(ids))]
+
+
+def build_job_graph(c, lg):
+    from workload import (ExecutionStrategies, ExecutionStrategy, Job, JobGraph, Resource, Resources, WorkProfile)
+    pol = make_policy(c["policy"])
+    jg = JobGraph(name="G", release_policy=pol,
+                  deadline_variance=None if c["variance"] is None else tuple(c["variance"]))
+    jobs = []
+    for k, j in enumerate(c["jobs"]):
+        prof = None
+        if j["runtimes"]:
+            prof = WorkProfile(name="p%d" % k, execution_strategies=ExecutionStrategies(
+                [ExecutionStrategy(resources=Resources({Resource("Slot", "any"): 1}, _logger=lg), batch_size=1,
+                                   runtime=et(r)) for r in j["runtimes"]]))
+        kw = {}
+        if j["slo"] is not None:
+            kw["slo"] = et(j["slo"])
+        job = Job(name=c["names"][j["name"]], profile=prof, conditional=j["cond"], probability=num_in(j["prob"]),
+                  terminal=j["term"], **kw)
+        jobs.append(job)
+        jg.add_job(job)
+    for a, b in c["edges"]:
+        jg.add_child(jobs[a], jobs[b])
+    return jg, pol
+
+
+def ns_flags(f):
+    return types.SimpleNamespace(
+        min_deadline_variance=f["minv"], max_deadline_variance=f["maxv"], min_deadline=f["minb"],
+        max_deadline=f["maxb"], use_branch_predicated_deadlines=f.get("bpd", False),
+        resolve_conditionals_at_submission=False, decompose_deadlines=False, log_dir=None, log_file_name=None,
+        log_level="error")
+
+
+def instantiate(cases):
+    quiet_all()
+    lg = implutil.quiet_logger()
+    out = []
+    for c in cases:
+        wrap_uniform()
+        try:
+            jg, pol = build_job_graph(c, lg)
+        except RuntimeError:
+            out.append({"res": [1, 6], "ct": [1, 6], "draws": [], "uniform": []})
+            continue
+        flags_ = None if c["flags"] is None else ns_flags(c["flags"])
+        ct = guard(lambda: (lambda t: [] if t is None else vet(t))(jg.completion_time))
+        r = guard(lambda: obs_task_graphs(list(jg.generate_task_graphs(et(c["completion"]), _flags=flags_).values()),
+                                          c["names"]))
+        out.append({"res": r, "ct": ct, "draws": pol._rng.calls, "uniform": [u[2] for u in UNI.calls],
+                    "uniform_args": [[u[0], u[1]] for u in UNI.calls]})
+    return out
+
+
+def closed_loop(cases):
+    from workload import (ExecutionStrategies, ExecutionStrategy, Job, JobGraph, Resource, Resources, TaskGraph,
+                          WorkProfile, Workload)
+    quiet_all()
+    lg = implutil.quiet_logger()
+    out = []
+    for c in cases:
+        wrap_uniform()
+        try:
+            pol = JobGraph.ReleasePolicy.closed_loop(concurrency=c["conc"], num_invocations=c["n"],
+                                                     start=EventTime(c.get("start", 0), EventTime.Unit.US))
+        except RuntimeError:
+            out.append({"init": [1, 6], "steps": []})
+            continue
+        jg = JobGraph(name="G", release_policy=pol, deadline_variance=(0, 0))
+        prof = WorkProfile(name="p", execution_strategies=ExecutionStrategies(
+            [ExecutionStrategy(resources=Resources({Resource("Slot", "any"): 1}, _logger=lg), batch_size=1,
+                               runtime=EventTime(10, EventTime.Unit.US))]))
+        a = Job(name="A", profile=prof)
+        b = Job(name="B", profile=prof)
+        jg.add_job(a)
+        jg.add_job(b)
+        jg.add_child(a, b)
+        wl = Workload.from_job_graphs({"G": jg})
+        wl.populate_task_graphs(EventTime(0, EventTime.Unit.US))
+        init = sorted(int(n.rsplit("@", 1)[1]) for n in wl.task_graphs)
+        steps = []
+        now = 100
+        for g in c["notify"]:
+            tg = wl.get_task_graph("G@%d" % g)
+            if tg is None:
+                tg = TaskGraph(name="G@%d" % g, tasks={}, job_graph=jg)
+            before = set(wl.task_graphs)
+            now += 7
+            try:
+                rel = wl.notify_task_graph_completion(tg, EventTime(now, EventTime.Unit.US))
+                new = [n for n in wl.task_graphs if n not in before]
+                item = [0, [int(n.rsplit("@", 1)[1]) for n in new], int(jg._remaining_task_graphs)]
+                # the new graph starts one microsecond after the reported completion, at its sources only
+                ok_time = all(t.release_time == EventTime(now + 1, EventTime.Unit.US) for t in rel) and \
+                    all(wl.get_task_graph(n).release_time == EventTime(now + 1, EventTime.Unit.US) for n in new) and \
+                    (len(rel) == len(new))
+                steps.append(item + [int(ok_time)])
+            except Exception as e:  # noqa: BLE001
+                steps.append([1, ERR.get(type(e).__name__, 99)])
+        out.append({"init": [0, init, int(jg._remaining_task_graphs)], "steps": steps})
+    return out
+
+
+_FLAGS = None
+
+
+def real_flags(argv):
+    global _FLAGS
+    if _FLAGS is None:
+        sys.argv = ["verif"]
+        import main  # noqa: F401  (defines the simulator's absl flags)
+        from absl import flags
+        _FLAGS = flags.FLAGS
+    _FLAGS.unparse_flags()
+    _FLAGS(["verif", "--log_level=error"] + list(argv))
+    return _FLAGS
+
+
+def split_name(name, table):
+    if name in table:
+        return [table.index(name), 0]
+    m = re.match(r"^(.*)_(\d+)$", name)
+    if m and m.group(1) in table:
+        return [table.index(m.group(1)), int(m.group(2))]
+    return [-1, -1]
+
+
+def obs_resources(res, c):
+    if res is None:
+        return None
+    out = []
+    for r, q in res._resource_vector.items():
+        rid = r.id
+        out.append([c["rnames"].index(r.name), 0 if rid == "any" else (c["rids"].index(rid) + 1 if rid in c["rids"] else -1),
+                    int(q)])
+    return [out]
+
+
+def obs_strategies(sts, c):
+    return [[obs_resources(s.resources, c), int(s.batch_size), vet(s.runtime)] for s in sts]
+
+
+def obs_policy(p):
+    def f(x):
+        return fl_out(x) if x is not None else [0, 0]
+    return [p._policy_type.value, vet(p._period), int(p._fixed_invocation_nums), f(p._variable_arrival_rate),
+            f(p._coefficient), int(p._concurrency), vet(p._start)]
+
+
+def write_doc(doc, fmt, idx):
+    import json
+    import yaml
+    path = os.path.join(os.getcwd(), "C19_doc_%d_%d.%s" % (os.getpid(), idx, fmt))
+    with open(path, "w") as f:
+        if fmt == "json":
+            json.dump(doc, f)
+        else:
+            yaml.safe_dump(doc, f, sort_keys=False)
+    return path
+
+
+def loader(cases):
+    from data import WorkloadLoader
+    quiet_all()
+    wrap_policy_class()
+    out = []
+    for idx, c in enumerate(cases):
+        wrap_uniform()
+        del NP_CALLS[:]
+        path = write_doc(c["doc"], c["fmt"], idx)
+        try:
+            flags_ = None if c["flags"] is None else real_flags(c["flags"])
+
+            def run():
+                wl = WorkloadLoader(path, _flags=flags_).workload
+                jgs = []
+                tgs = []
+                for name, jg in wl.job_graphs.items():
+                    jobs = []
+                    for j in jg.get_nodes():
+                        pr = j.profile
+                        if pr.name.endswith("_work_profile") and split_name(pr.name, c["pnames"])[0] < 0:
+                            pobs = None
+                        else:
+                            pobs = [split_name(pr.name, c["pnames"]) + [obs_strategies(pr.execution_strategies, c),
+                                                                       obs_strategies(pr.loading_strategies, c)]]
+                        jobs.append([c["names"].index(j.name), vet(j.slo), int(j.conditional), int(j.terminal),
+                                     fl_out(j.probability), pobs, [c["names"].index(x.name) for x in jg.get_children(j)]])
+                    var = jg._deadline_variance
+                    jgs.append(split_name(name, c["gnames"]) + [obs_policy(jg.release_policy),
+                                                               [] if var is None else [int(var[0]), int(var[1])], jobs])
+                    mine = [tg for tg in wl.task_graphs.values() if tg.job_graph is jg]
+                    tgs.append(split_name(name, c["gnames"]) + [obs_task_graphs(mine, c["names"])])
+                return [jgs, tgs]
+            r = guard(run)
+        finally:
+            os.remove(path)
+        out.append({"res": r, "draws": [list(x) for x in NP_CALLS], "uniform": [u[2] for u in UNI.calls]})
+    return out
+
+
+def worker_loader(cases):
+    from data import WorkerLoader
+    quiet_all()
+    out = []
+    for idx, c in enumerate(cases):
+        path = write_doc(c["doc"], c["fmt"], idx)
+        try:
+            def run():
+                pools = WorkerLoader(path).get_worker_pools().worker_pools
+                res = []
+                for p in pools:
+                    ws = []
+                    for w in p.workers:
+                        ws.append([c["wnames"].index(w.name), obs_resources(w.resources, c)[0]])
+                    res.append([c["pnames"].index(p.name), ws])
+                return res
+            r = guard(run)
+        finally:
+            os.remove(path)
+        out.append({"res": r})
+    return out
+
+
 res = {}
 if "release_times" in payload:
     res["release_times"] = release_times(payload["release_times"])
 if "float_ops" in payload:
     res["float_ops"] = float_ops(payload["float_ops"])
+if "instantiate" in payload:
+    res["instantiate"] = instantiate(payload["instantiate"])
+if "closed_loop" in payload:
+    res["closed_loop"] = closed_loop(payload["closed_loop"])
+if "loader" in payload:
+    res["loader"] = loader(payload["loader"])
+if "worker_loader" in payload:
+    res["worker_loader"] = worker_loader(payload["worker_loader"])
 implutil.end(res)
